@@ -272,7 +272,7 @@ fn run_par_case(c: &ParCase) -> Result<bool, String> {
     }));
     match r {
         Ok(r) => r?,
-        Err(_) => return Err("a parallel collect / extend panicked".into()),
+        Err(e) => return Err(format!("a parallel collect / extend panicked: {}", crate::sched::panic_msg(&e))),
     }
     let mut seen = BTreeSet::new();
     let repeated = c.items.iter().any(|x| !seen.insert(x.0));
